@@ -1171,3 +1171,244 @@ Proof.
   unfold poll_frame. destruct (dir s); [|discriminate]. intros E.
   destruct (loop_panic _ _ _ _ _ E) as [fr D]. exists fr. now apply decode_panic_many_lines.
 Qed.
+
+(* ---------- the capacity witness: [n] lines with distinct names ---------- *)
+Lemma nth_name_inj i j : i < 456976 -> j < 456976 -> nth_name i = nth_name j -> i = j.
+Proof.
+  intros Hi Hj H. unfold nth_name in H. cbn [name_digits] in H.
+  injection H as H0 H1 H2 H3.
+  assert (E1 : i / 26 / 26 = i / 676) by (rewrite N.div_div by lia; reflexivity).
+  assert (E2 : i / 26 / 26 / 26 = i / 17576) by (rewrite !N.div_div by lia; reflexivity).
+  assert (F1 : j / 26 / 26 = j / 676) by (rewrite N.div_div by lia; reflexivity).
+  assert (F2 : j / 26 / 26 / 26 = j / 17576) by (rewrite !N.div_div by lia; reflexivity).
+  rewrite E1, E2, F1, F2 in *. lia.
+Qed.
+
+Lemma nth_name_ok i : name_ok (nth_name i) = true.
+Proof.
+  unfold name_ok, nth_name. cbn [name_digits]. rewrite !nlen_cons, nlen_nil.
+  unfold MAX_HEADER_NAME_LEN. cbn [forallb].
+  assert (L : forall d, d < 26 -> is_token_lower (97 + d) = true).
+  { intros d Hd. unfold is_token_lower, header_char, is_upper, is_lower.
+    replace ((65 <=? 97 + d) && (97 + d <=? 90)) with false by lia.
+    replace ((97 <=? 97 + d) && (97 + d <=? 122)) with true by lia. cbn [orb]. lia. }
+  rewrite !L by (apply N.mod_lt; lia). reflexivity.
+Qed.
+
+Lemma many_lines_ok n : forall i, trailers_ok (many_lines n i) = true.
+Proof.
+  induction n as [|n IH]; intros i; [reflexivity|].
+  cbn [many_lines trailers_ok forallb]. fold (trailers_ok (many_lines n (i + 1))).
+  rewrite IH. unfold entry_ok. cbn [fst snd]. now rewrite nth_name_ok.
+Qed.
+
+Lemma many_lines_read_back n : forall i, read_back (many_lines n i) = many_lines n i.
+Proof.
+  induction n as [|n IH]; intros i; [reflexivity|].
+  cbn [many_lines read_back map fst snd]. fold (read_back (many_lines n (i + 1))). now rewrite IH.
+Qed.
+
+Lemma contains_app m e x : hm_contains (m ++ [e]) x = hm_contains m x || key_is x e.
+Proof. unfold hm_contains. rewrite existsb_app. cbn [existsb]. now rewrite orb_false_r. Qed.
+
+Lemma decode_many r : forall k m,
+  N.of_nat k <= HM_MAX_NAMES -> N.of_nat (k + r) <= 456976 ->
+  (forall j, N.of_nat k <= j < 456976 -> hm_contains m (nth_name j) = false) ->
+  decode_lines (map line_of (many_lines r (N.of_nat k))) m (N.of_nat k) =
+  if HM_MAX_NAMES <? N.of_nat (k + r) then DPanic
+  else DOk (Some (m ++ many_lines r (N.of_nat k))).
+Proof.
+  induction r as [|r IH]; intros k m Hk Hr Hm.
+  - cbn [many_lines map decode_lines]. rewrite Nat.add_0_r, app_nil_r.
+    replace (HM_MAX_NAMES <? N.of_nat k) with false by lia. reflexivity.
+  - cbn [many_lines map decode_lines]. unfold line_of at 1. cbn [fst snd].
+    pose proof (nth_name_ok (N.of_nat k)) as Hn. pose proof Hn as Hn'.
+    unfold name_ok in Hn'. apply andb_true_iff in Hn' as [_ Hn'].
+    rewrite split_colon_spec by (intros x I; now apply (token_not _ _ Hn' I)).
+    rewrite header_name_ok by exact Hn.
+    change (trailer_value [49]) with [49]. change (negb (hv_ok [49])) with false. cbv iota.
+    destruct (N.of_nat k =? HM_MAX_NAMES) eqn:E.
+    + replace (HM_MAX_NAMES <? N.of_nat (k + S r)) with true by lia. reflexivity.
+    + rewrite Hm by (unfold HM_MAX_NAMES in *; lia).
+      replace (N.of_nat k + 1) with (N.of_nat (S k)) by lia.
+      rewrite IH.
+      * replace (S k + r)%nat with (k + S r)%nat by lia.
+        unfold hm_append. rewrite <- app_assoc. reflexivity.
+      * lia.
+      * lia.
+      * intros j Hj. unfold hm_append. rewrite contains_app, Hm by lia. cbn [orb].
+        unfold key_is. cbn [fst]. apply not_true_iff_false. intros Q. apply bytes_eqb_eq in Q.
+        apply nth_name_inj in Q; unfold HM_MAX_NAMES in *; lia.
+Qed.
+
+(* a trailers frame with [n] distinct valid names overflows http::HeaderMap exactly beyond
+   24576 names (this is what [obs_many_names] records) *)
+Theorem decode_many_names n : N.of_nat n <= 456976 ->
+  decode_trailers_frame (trailers_frame (many_lines n 0)) =
+  if HM_MAX_NAMES <? N.of_nat n then DPanic else DOk (Some (many_lines n 0)).
+Proof.
+  intros Hn. unfold decode_trailers_frame, trailers_frame.
+  rewrite nlen_frame. replace (5 + nlen (encode_trailers (many_lines n 0)) <? 5) with false by lia.
+  replace (ndrop 5 (frame GRPC_WEB_TRAILERS_BIT (encode_trailers (many_lines n 0))))
+    with (encode_trailers (many_lines n 0)) by (rewrite frame_unfold; reflexivity).
+  rewrite split_crlf_block by apply many_lines_ok.
+  pose proof (decode_many n 0 [] ltac:(unfold HM_MAX_NAMES; lia) ltac:(lia) ltac:(reflexivity)) as D.
+  cbn [N.of_nat Nat.add app] in D. exact D.
+Qed.
+
+(* ================= no hang, for every script ================= *)
+(* find_trailers answers an offset that is 0 or covers at least one frame header *)
+Lemma ft_ge5 fuel buf : forall len n,
+  (find_trailers_loop fuel buf len = FT_Trailer n \/ find_trailers_loop fuel buf len = FT_Done n) ->
+  n = len \/ len + 5 <= n.
+Proof.
+  induction fuel as [|f IH]; intros len n H; [cbn in H; destruct H; discriminate|].
+  cbn [find_trailers_loop] in H.
+  destruct (ndrop len buf) as [|h [|a [|b [|c [|d r]]]]];
+    try (destruct H as [H|H]; inversion H; subst; left; reflexivity).
+  destruct (h =? GRPC_WEB_TRAILERS_BIT); [destruct H as [H|H]; inversion H; subst; left; reflexivity|].
+  destruct (negb ((h =? 0) || (h =? 1))); [destruct H; discriminate|].
+  destruct (nlen buf <? len + (un_be32 a b c d + 4 + 1)); [destruct H; discriminate|].
+  apply IH in H. lia.
+Qed.
+
+Lemma ntake_ndrop_len {A} (l : list A) n : n <= nlen l ->
+  length (ntake n l) = N.to_nat n /\ (length (ndrop n l) + N.to_nat n = length l)%nat.
+Proof.
+  intros L. unfold ntake, ndrop, nlen in *. rewrite firstn_length, skipn_length. lia.
+Qed.
+
+(* progress made by hand_out *)
+Lemma hand_out_progress s :
+  match hand_out s with
+  | HRet o s' =>
+      (length (decoded s') <= length (decoded s))%nat /\
+      (forall d, o = OData d -> (5 <= length d)%nat /\ (length (decoded s') + length d <= length (decoded s))%nat)
+  | HCont s' => (length (decoded s') < length (decoded s))%nat
+  | HFall _ => True
+  end.
+Proof.
+  unfold hand_out. destruct (nonempty (decoded s)); [|exact I].
+  destruct (trailers s).
+  { split; [cbn; lia|discriminate]. }
+  destruct (find_trailers (decoded s)) as [n| |n|f|] eqn:EF; try exact I.
+  - destruct (n =? 0) eqn:E0.
+    + destruct (split_trailers_frame (decoded s)) as [[fr rest]|] eqn:ES; [|exact I].
+      pose proof (split_trailers_frame_len _ _ _ ES) as [_ L]. unfold nlen in L.
+      destruct (decode_trailers_frame fr); cbn [set_trailers set_decoded set_empty decoded].
+      * lia.
+      * split; [lia|discriminate].
+      * split; [lia|discriminate].
+    + destruct (nlen (decoded s) <? n) eqn:EL.
+      * split; [lia|discriminate].
+      * pose proof (ft_ge5 _ _ 0 n (or_introl EF)) as G.
+        destruct (ntake_ndrop_len (decoded s) n ltac:(lia)) as [L1 L2].
+        cbn [set_decoded decoded]. split; [lia|]. intros d0 [= <-]. lia.
+  - destruct (n =? 0) eqn:E0; [exact I|].
+    destruct (nlen (decoded s) <? n) eqn:EL.
+    + split; [lia|discriminate].
+    + pose proof (ft_ge5 _ _ 0 n (or_intror EF)) as G.
+      destruct (ntake_ndrop_len (decoded s) n ltac:(lia)) as [L1 L2].
+      cbn [set_decoded decoded]. split; [lia|]. intros d0 [= <-]. lia.
+  - split; [cbn; lia|discriminate].
+  - split; [lia|discriminate].
+Qed.
+
+Definition avail_len (s : st) (i : inner) : nat :=
+  (length (decoded s) + length (concat (datas (i_evs i))))%nat.
+
+Lemma loop_progress fuel : forall s i o s' i', loop fuel s i = (o, s', i') ->
+  (length (i_evs i') <= length (i_evs i))%nat /\ (avail_len s' i' <= avail_len s i)%nat /\
+  (o = OPending -> (length (i_evs i') < length (i_evs i))%nat) /\
+  (forall d, o = OData d -> (5 <= length d)%nat /\ (avail_len s' i' + length d <= avail_len s i)%nat) /\
+  (forall t, o = OTrailers t ->
+     inner_done s' = true /\ decoded s' = [] /\ trailers s' = None /\ hand_out s' = HFall s').
+Proof.
+  induction fuel as [|f IH]; intros s i o s' i' E.
+  { cbn in E. injection E as <- <- <-.
+    split; [lia|]. split; [lia|]. split; [discriminate|]. split; intros ? ?; discriminate. }
+  cbn [loop] in E. unfold iter in E.
+  pose proof (hand_out_progress s) as HP. pose proof (hand_out_shape s) as SH.
+  (* a continued loop: the step does not lose ground, the rest is the induction hypothesis *)
+  assert (Cont_case : forall s2 i2,
+            (length (i_evs i2) <= length (i_evs i))%nat -> (avail_len s2 i2 <= avail_len s i)%nat ->
+            loop f s2 i2 = (o, s', i') ->
+            (length (i_evs i') <= length (i_evs i))%nat /\ (avail_len s' i' <= avail_len s i)%nat /\
+            (o = OPending -> (length (i_evs i') < length (i_evs i))%nat) /\
+            (forall d, o = OData d -> (5 <= length d)%nat /\ (avail_len s' i' + length d <= avail_len s i)%nat) /\
+            (forall t, o = OTrailers t ->
+               inner_done s' = true /\ decoded s' = [] /\ trailers s' = None /\ hand_out s' = HFall s')).
+  { intros s2 i2 L1 L2 E2. apply IH in E2. destruct E2 as (A & B & C & D & F).
+    split; [lia|]. split; [lia|]. split; [intros Ho; specialize (C Ho); lia|].
+    split; [|exact F]. intros d Hd. destruct (D d Hd). split; lia. }
+  destruct (hand_out s) as [o1 s1|s1|s1] eqn:EH.
+  - injection E as <- <- <-. destruct HP as [P1' P2']. destruct SH as (_ & _ & NP & NT & _).
+    unfold avail_len. split; [lia|]. split; [lia|]. split; [congruence|].
+    split.
+    + intros d Hd. destruct (P2' d Hd). split; lia.
+    + intros t Ht. exfalso. now apply (NT t).
+  - apply (Cont_case s1 i); try lia; try exact E. unfold avail_len. lia.
+  - subst s1. destruct (inner_done s) eqn:Ed.
+    + destruct (nonempty (decoded s)) eqn:En.
+      * injection E as <- <- <-. unfold avail_len. cbn [set_empty decoded].
+        split; [lia|]. split; [lia|]. split; [discriminate|]. split; intros ? ?; discriminate.
+      * destruct (trailers s) eqn:Et; injection E as <- <- <-.
+        -- unfold avail_len. cbn [set_trailers decoded inner_done trailers].
+           apply nonempty_false in En.
+           split; [lia|]. split; [lia|]. split; [discriminate|]. split; [intros ? ?; discriminate|].
+           intros t _. split; [exact Ed|]. split; [exact En|]. split; [reflexivity|].
+           apply hand_out_empty. exact En.
+        -- unfold avail_len.
+           split; [lia|]. split; [lia|]. split; [discriminate|]. split; intros ? ?; discriminate.
+    + unfold poll_inner in E. destruct i as [evs p e]. cbn [i_evs i_polls i_ends] in *.
+      destruct evs as [|x r].
+      * cbn [answer_of] in E. apply (Cont_case _ _) in E; [exact E|cbn; lia|].
+        unfold avail_len. cbn [set_done decoded i_evs]. lia.
+      * destruct x as [|d0|t0|]; cbn [answer_of] in E.
+        -- injection E as <- <- <-. unfold avail_len. cbn [i_evs datas length].
+           split; [lia|]. split; [lia|]. split; [intros _; lia|]. split; intros ? ?; discriminate.
+        -- apply (Cont_case _ _) in E; [exact E|cbn; lia|].
+           unfold avail_len. cbn [set_decoded decoded i_evs datas concat]. rewrite !app_length. lia.
+        -- apply (Cont_case _ _) in E; [exact E|cbn; lia|].
+           unfold avail_len. cbn [set_trailers decoded i_evs datas]. lia.
+        -- injection E as <- <- <-. unfold avail_len. cbn [set_empty decoded i_evs datas length].
+           split; [lia|]. split; [lia|]. split; [discriminate|]. split; intros ? ?; discriminate.
+Qed.
+
+Lemma drain_never_hangs n : forall s i, good s i ->
+  (length (i_evs i) + avail_len s i / 5 + 2 <= n)%nat ->
+  ~ In OOutOfFuel (drain_l n s i).
+Proof.
+  induction n as [|n IH]; intros s i Hg L; [lia|].
+  rewrite drain_l_S.
+  destruct (poll_frame (fuel_of i) s i) as [[o s'] i'] eqn:E.
+  destruct (no_busy_loop s i (fuel_of i) o s' i' ltac:(unfold fuel_of; lia) Hg E) as (NF & Hg' & _).
+  unfold poll_frame in E. destruct (dir s) eqn:Ed.
+  2:{ injection E as <- <- <-. cbn. intros [H|[]]. discriminate. }
+  pose proof (loop_progress _ _ _ _ _ _ E) as (A & B & C & D & F).
+  destruct o; try (cbn; intros [H|[]]; congruence).
+  - apply IH; [exact Hg'|]. specialize (C eq_refl).
+    assert (avail_len s' i' / 5 <= avail_len s i / 5)%nat by (apply Nat.div_le_mono; lia). lia.
+  - destruct (D d eq_refl) as [D1 D2]. intros [H|H]; [discriminate|]. revert H.
+    apply IH; [exact Hg'|].
+    assert (avail_len s' i' / 5 + 1 <= avail_len s i / 5)%nat.
+    { replace (avail_len s' i' / 5 + 1)%nat with ((avail_len s' i' + 1 * 5) / 5)%nat
+        by (rewrite Nat.div_add by lia; reflexivity).
+      apply Nat.div_le_mono; lia. }
+    lia.
+  - destruct (F t eq_refl) as (F1 & F2 & F3 & F4). intros [H|H]; [discriminate|]. revert H.
+    destruct n as [|n]; [lia|]. rewrite drain_l_S.
+    unfold poll_frame. destruct (dir s').
+    + unfold fuel_of. rewrite Nat.add_comm. cbn [Nat.add].
+      rewrite (loop_fall_done _ _ _ F4 F1), F2, F3. cbn. intros [H|[]]. discriminate.
+    + cbn. intros [H|[]]. discriminate.
+Qed.
+
+(* EVERY script - malformed bodies, errors and HTTP trailers of the wrapped body included -
+   is drained within the poll budget: the consumer reaches the end, an error (or the explicit
+   capacity panic), never a hang *)
+Theorem never_hangs evs : ~ In OOutOfFuel (run evs).
+Proof.
+  rewrite run_drain_l. apply drain_never_hangs; [apply good_init|].
+  unfold poll_cap, avail_len, init, mk_inner. cbn [i_evs decoded length]. lia.
+Qed.
